@@ -1375,7 +1375,7 @@ class WBEMListener:
         self.logger.info("Starting callback thread")
         self._callback_thread = CallbackThread(
             target=self._callback_run,
-            args=(),
+            args=(self._ind_queue,),
             name='CallbackThread',
             daemon=False)
         self._callback_thread.start()
@@ -1612,21 +1612,29 @@ class WBEMListener:
             self.logger.info(
                 "Stopped threaded HTTPS server and its listener thread")
 
-    def _callback_run(self):
+    def _callback_run(self, ind_queue):
         """
         Thread runner function for the callback thread that delivers indications
-        to the registered callback functions.
+        from the indication queue `ind_queue` to the registered callback
+        functions.
 
         This function runs a loop and only returns when the queue is emtpy and
         the callback thread's stop() method had been called.
         """
         self.logger.info("Entering callback processing loop")
 
+        # The queue is passed in by start() and the thread object is
+        # referenced locally, because stop() sets self._ind_queue to None once
+        # it has seen the queue empty, while this thread may not even have
+        # started to run, may still be delivering the last indication, or may
+        # be waiting for the next one.
+        callback_thread = threading.current_thread()
+
         while True:
             try:
 
                 # This raises queue.Empty when the timeout expires
-                queue_item = self._ind_queue.get(
+                queue_item = ind_queue.get(
                     block=True,
                     timeout=self.queue_get_timeout)
                 indication, host, msgid = queue_item
@@ -1637,11 +1645,11 @@ class WBEMListener:
                 # Really for delivering to multiple workers rather than
                 # this simple case of a single worker. However this
                 # keeps the queue clean.
-                self._ind_queue.task_done()
+                ind_queue.task_done()
 
             # If queue empty and stop event set break out of loop
             except queue.Empty:
-                if self._callback_thread.stopped():
+                if callback_thread.stopped():
                     break
 
         self.logger.info("Leaving callback processing loop")
